@@ -843,7 +843,10 @@ def register_all(M):
         ty = m.group("ty")
         s = as_str(a[0])
         if not all(ch.concrete for ch in s.chars):
-            raise Unsupported("str::parse on symbolic text")
+            class _M:
+                def group(self, k):
+                    return ty
+            return M.from_str_radix(c, _M(), [s, mk_int(10, "u32")])
         text = "".join(chr(ch.v) for ch in s.chars)
         if re.fullmatch(r"[+-]?[0-9]+", text) and not (text.startswith("-") and ty.startswith("u")):
             v = int(text)
@@ -1079,6 +1082,15 @@ def register_all(M):
         return sbool(elem_eq(c, Slice(x[:len(y)]), Slice(y)))
     M.add(r"core::slice::<impl \[.*\]>::starts_with", slice_starts_with)
 
+    def slice_ends_with(c, m, a):
+        x, y = as_items(a[0]), as_items(a[1])
+        if len(y) > len(x):
+            return sbool(False)
+        if not y:
+            return sbool(True)
+        return sbool(elem_eq(c, Slice(x[len(x) - len(y):]), Slice(y)))
+    M.add(r"core::slice::<impl \[.*\]>::ends_with", slice_ends_with)
+
     def slice_concat(c, m, a):
         out = []
         for part in as_items(a[0]):
@@ -1187,6 +1199,26 @@ def register_all(M):
             y = c.call_callable(a[1], [])
             return opt_or(c, m, [x, y])
         return x if x.variant == "Some" else c.call_callable(a[1], [])
+    def opt_unwrap_or_default(c, m, a):
+        o = a[0]
+        if o.variant == "Some":
+            return o.fields[0]
+        t = m.group("t")
+        if t.startswith("String"):
+            return StringBuf()
+        if t.startswith("Vec"):
+            return VecBuf()
+        if t in INT_BITS:
+            return mk_int(0, t)
+        if t == "bool":
+            return SBool(False)
+        if t.startswith("Option"):
+            return none()
+        impl = c.program.resolve_call("<%s as Default>::default" % t)
+        if impl is not None:
+            return c.call(impl, [])
+        raise Unsupported("unwrap_or_default for %s" % t)
+    M.add(r"Option::<(?P<t>.*)>::unwrap_or_default", opt_unwrap_or_default)
     M.add(r"Option::<.*>::or", opt_or)
     M.add(r"Option::<.*>::or_else::<.*>", opt_or_else)
     M.add(r"Option::<.*>::ok_or::<.*>", lambda c, m, a: ok(a[0].fields[0]) if a[0].variant == "Some" else err(a[1]))
@@ -1261,6 +1293,16 @@ def register_all(M):
     M.add(IT + r"::flatten", lambda c, m, a: FlattenIt(it_of(a[0])))
     M.add(IT + r"::peekable", lambda c, m, a: PeekableIt(it_of(a[0])))
     M.add(IT + r"::copied::<.*>|" + IT + r"::cloned::<.*>|" + IT + r"::copied|" + IT + r"::cloned", lambda c, m, a: MapIt(it_of(a[0]), lambda c2, args: deep_clone(deref(args[0]))))
+    def it_nth(c, m, a):
+        it = it_of(a[0])
+        n = conc(a[1], "nth index")
+        v = None
+        for _ in range(n + 1):
+            v = it.next(c)
+            if v is None:
+                return none()
+        return some(v)
+    M.add(IT + r"::nth", it_nth)
     M.add(IT + r"::count", lambda c, m, a: usize(len(drain(c, it_of(a[0])))))
     M.add(IT + r"::last", lambda c, m, a: (lambda xs: some(xs[-1]) if xs else none())(drain(c, it_of(a[0]))))
 
@@ -1413,6 +1455,7 @@ def register_all(M):
                 return err(Opaque("ParseIntError(overflow)"))
         return ok(mk_int(z3.Extract(bits - 1, 0, total), ty))
     M.add(r"core::num::<impl (?P<ty>u8|u16|u32|u64|usize|i32|i64)>::from_str_radix", from_str_radix)
+    M.from_str_radix = from_str_radix
 
     def regex_escape(c, m, a):
         out = []
@@ -1516,6 +1559,9 @@ def register_all(M):
     M.add(r"<String as Default>::default", lambda c, m, a: StringBuf())
     M.add(r"<bool as Default>::default", lambda c, m, a: SBool(False))
     M.add(r"<(usize|u8|u16|u32|u64|i32|i64|isize) as Default>::default", lambda c, m, a: mk_int(0, m.group(1)))
+
+    # last resorts: structural clone for owned values
+    M.add(r"<.* as ToOwned>::to_owned|<.* as Clone>::clone", lambda c, m, a: deep_clone(deref(a[0])))
 
     # ---- errors (opaque) ---------------------------------------------------------------------
     M.add(r"anyhow::__private::format_err|anyhow::error::<impl anyhow::Error>::msg::<.*>|anyhow::Error::msg::<.*>|anyhow::__private::must_use", lambda c, m, a: Opaque("anyhow::Error"))
